@@ -577,15 +577,20 @@ def rule_kind_dynamic(ctx):
         for f in ctx.need(D + '::' + name, ctx.units):
             KEY = ('param', f.params[0]['name'])
             n = 0
-            for c in f.calls(pred=lambda nd: nd.get('ct') in kinds.LOWER + kinds.UPPER):
-                if not reachable(f, c):
-                    continue
-                k = kinds.kind_of_term(f.term(c, inline=False))
-                n += 1
-                ok = bool(k) and k[0] == 'FIRST_GE' and strip_cast(k[1]) == KEY
-                obs.append(Ob('KIND', f, c, 'per-level probe is FIRST_GE(key)', f"{k[0] if k else 'unknown'}", OK if ok else VIOLATED, arm=name))
+            # the probe may sit in a local closure of the function (a helper hoisted out of the level loop)
+            closures = [l for l in f.unit.functions.values() if l.d.get('parent_fn') == f.id and l.name == 'operator()' and l.cfg]
+            for fn_ in [f] + closures:
+                for c in fn_.calls(pred=lambda nd: nd.get('ct') in kinds.LOWER + kinds.UPPER):
+                    if not reachable(fn_, c):
+                        continue
+                    k = kinds.kind_of_term(fn_.term(c, inline=False))
+                    n += 1
+                    ok = bool(k) and k[0] == 'FIRST_GE' and strip_cast(k[1]) == KEY
+                    obs.append(Ob('KIND', fn_, c, 'per-level probe is FIRST_GE(key)', f"{k[0] if k else 'unknown'}", OK if ok else (UNDECIDED if not k else VIOLATED), arm=name))
             if n == 0:
-                obs.append(Ob('KIND', f, 0, 'per-level probe is FIRST_GE(key)', 'no search found', VIOLATED, arm=name))
+                helpers = [c for c in f.calls() if f.unit.functions.get(f.n(c).get('cd')) is not None and f.unit.functions[f.n(c)['cd']].record == f.record and f.n(c).get('cn') not in ('level', 'pgm', 'has_pgm', 'end', 'begin')]
+                obs.append(Ob('KIND', f, 0, 'per-level probe is FIRST_GE(key)', 'no search found' + (' in the function itself (it calls helpers of its class)' if helpers else ''),
+                              UNDECIDED if helpers else VIOLATED, arm=name))
     # find() decides at the first level whose probe hits the key
     for f in ctx.need(D + '::find', ctx.units):
         KEY = ('param', f.params[0]['name'])
